@@ -10,13 +10,16 @@ import tcimpl
 KIND = "tc"
 SPECS = ["C16"]
 THEOREMS = [
-    "C16.run_spec", "C16.run_spec_wellformed",
+    "C16.run_spec", "C16.run_spec_wellformed", "C16.run_spec_ip", "C16.run_spec_cli",
     "C16.node_nest_restored", "C16.kids_nest_restored", "C16.run_nest_restored",
-    "C16.node_events_bracketed", "C16.run_events_balanced",
-    "C16.node_end_flags", "C16.node_skip_yields_none", "C16.node_skip_flag_iff",
+    "C16.node_events_bracketed", "C16.kids_events_balanced", "C16.run_events_balanced",
+    "C16.node_end_flags", "C16.node_says_success_iff", "C16.node_skip_flag_iff",
     "C16.node_success_iff_not_failed", "C16.skip_reports_success_flag",
-    "C16.cli_exit_zero_iff", "C16.cli_exit_130_iff", "C16.cli_final_event",
+    "C16.node_skip_yields_none", "C16.node_never_raises_skip", "C16.node_propagates",
+    "C16.node_returns_value",
+    "C16.cli_exit_zero_iff", "C16.cli_exit_130_iff", "C16.cli_exit_one_iff", "C16.cli_final_event",
     "C16.cli_nothing_after_failure", "C16.cli_modes_agree",
+    "Tc.runNode_sem", "Tc.feed_node", "Tc.feed_kids", "Tc.feed_top_ip", "Tc.feed_top_cli",
 ]
 LEAN_MODULES = ["TbotVerif.Props.C16"]
 QUICK_N, THOROUGH_N = 6000, 90000
